@@ -980,9 +980,7 @@ func (g *gen) fixedRegisterCases() {
 	for _, r := range txt.regs.view {
 		ref := href{art: txt, ranges: []hrange{{uint64(r.off), uint64(len(r.val))}}}
 		g.refBytes(s, ref, q)
-		if !r.quirk {
-			each = append(each, ref)
-		}
+		each = append(each, ref)
 	}
 	for _, r := range amd.regs.view {
 		ref := href{art: amd, ranges: []hrange{{uint64(r.off), uint64(len(r.val))}}}
@@ -999,10 +997,13 @@ func (g *gen) fixedRegisterCases() {
 	g.refBytes(s, href{art: amd, ranges: []hrange{{0, 6}}}, q)
 	g.refBytes(s, href{art: amd, ranges: []hrange{{2, 2}}}, q)
 	g.refBytes(s, href{art: amd, ranges: []hrange{{4, 8}}}, q)
-	// neighbours in ONE reference (open finding), a prefix, a start in the middle, a gap, the key
+	// neighbours in ONE reference (two ranges / one range / with the register behind them), a prefix, a start in the middle, a gap
 	g.refBytes(s, href{art: txt, ranges: []hrange{{0, 8}, {8, 1}}}, q)
 	g.refBytes(s, href{art: txt, ranges: []hrange{{0x330, 4}, {0x328, 8}}}, q)
 	g.refBytes(s, href{art: txt, ranges: []hrange{{0, 9}}}, q)
+	g.refBytes(s, href{art: txt, ranges: []hrange{{0x400, 32}, {0x378, 8}}}, q)
+	g.refBytes(s, href{art: txt, ranges: []hrange{{0x328, 13}}}, q)
+	g.refBytes(s, href{art: txt, ranges: []hrange{{0x300, 16}}}, q)
 	g.refBytes(s, href{art: txt, ranges: []hrange{{0, 4}}}, q)
 	g.refBytes(s, href{art: txt, ranges: []hrange{{2, 2}}}, q)
 	g.refBytes(s, href{art: txt, ranges: []hrange{{0x10, 4}}}, q)
@@ -1017,24 +1018,6 @@ func (g *gen) fixedRegisterCases() {
 
 func (g *gen) probes() {
 	c := g.c
-	// open findings about the TXT register file
-	{
-		var key registers.TXTPublicKey
-		key[0], key[31] = 0xAA, 0xBB
-		t := txtpublic.New(registers.Registers{registers.ParseTXTStatus(0x0102030405060708), registers.ParseTXTErrorStatus(0x5A), key})
-		ref := func(rs ...pkgbytes.Range) *types.Reference {
-			return &types.Reference{Artifact: t, MappedRanges: types.MappedRanges{Ranges: rs}}
-		}
-		want := []byte{8, 7, 6, 5, 4, 3, 2, 1, 0x5A}
-		var got []byte
-		panicked, msg := gal.Recover(func() {
-			got = ref(pkgbytes.Range{Offset: 0, Length: 8}, pkgbytes.Range{Offset: 8, Length: 1}).RawBytes()
-		})
-		c.Probe(fAdjacent, panicked || !bytes.Equal(got, want), fmt.Sprintf("Reference{TXTPublic{TXT.STS, TXT.ESTS}, ranges [0:8],[8:9]}.RawBytes(): panicked=%v (%s), got %x; the two registers hold %x (each of them alone is readable)", panicked, msg, got, want))
-		got = nil
-		panicked, msg = gal.Recover(func() { got = ref(pkgbytes.Range{Offset: 0x400, Length: 32}).RawBytes() })
-		c.Probe(fWideReg, panicked || !bytes.Equal(got, key[:]), fmt.Sprintf("Reference{TXTPublic{..., TXT.PUBLIC.KEY}, ranges [0x400:0x420]}.RawBytes(): panicked=%v (%s), got %x; the register holds %x", panicked, msg, got, key[:]))
-	}
 	// C11-D6: References{refA}.Exclude(refB) over two different RawBytes artifacts
 	{
 		a := types.RawBytes{1, 2, 3, 4}
